@@ -223,6 +223,28 @@ def gen_graph(rng, size, feat):
         op = rng.choice(["for_each", "null"])
         m = p.add(op, _text(op, len(p.nodes)), lp)
         p.edges.append((n, sp, m, None))
+    if rng.below(100) < feat.get("multi", 0):
+        # several referenced singletons; one reader (declared now, i.e. BEFORE the writers) sits in a later
+        # access group of all of them, independent writers in the earlier groups are declared afterwards
+        k = rng.range(2, 3)
+        hs = []
+        for _ in range(k):
+            src = p.add("source_iter", "source_iter(0..%d)" % (len(p.nodes) + 2), None)
+            h = p.add(rng.choice(["singleton", "singleton", "optional"]), None, None)
+            p.nodes[h]["text"] = p.nodes[h]["op"] + "()"
+            p.edges.append((src, None, h, None))
+            hs.append(h)
+        rsrc = p.add("source_iter", "source_iter(0..%d)" % (len(p.nodes) + 2), None)
+        rd = p.add("inspect", _text("inspect", len(p.nodes)), None)
+        snk = p.add("null", "null()", None)
+        p.edges.append((rsrc, None, rd, None))
+        p.edges.append((rd, None, snk, None))
+        p.nodes[rd]["refs"] = ["#{1} n%d" % h for h in rng.shuffle(hs)]
+        for h in rng.shuffle(hs):
+            wsrc = p.add("source_iter", "source_iter(0..%d)" % (len(p.nodes) + 2), None)
+            w = p.add("for_each", _text("for_each", len(p.nodes)), None)
+            p.edges.append((wsrc, None, w, None))
+            p.nodes[w]["refs"] = [("#{0} mut n%d" if rng.below(3) == 0 else "#{0} n%d") % h]
     if planted_access:
         up, down = planted_access
         src = p.add("source_iter", "source_iter(0..%d)" % (len(p.nodes) + 2), None)
@@ -347,9 +369,9 @@ FEATS = [
     {"name": "basic", "defer": 8, "back": 0, "refs": 0, "loops": 0},
     {"name": "cycles", "defer": 8, "back": 80, "back_defer": 45, "refs": 0, "loops": 0, "close": 45},
     {"name": "refs", "defer": 8, "back": 30, "back_defer": 60, "refs": 90, "loops": 0, "bad_ref": 3, "acc": 25},
-    {"name": "access", "defer": 6, "back": 15, "back_defer": 60, "refs": 20, "loops": 0, "acc": 100},
+    {"name": "access", "defer": 6, "back": 15, "back_defer": 60, "refs": 20, "loops": 0, "acc": 100, "multi": 40},
     {"name": "loops", "defer": 10, "back": 40, "back_defer": 75, "refs": 0, "loops": 90},
-    {"name": "all", "defer": 10, "back": 50, "back_defer": 55, "refs": 60, "loops": 60, "bad_ref": 2, "acc": 15},
+    {"name": "all", "defer": 10, "back": 50, "back_defer": 55, "refs": 60, "loops": 60, "bad_ref": 2, "acc": 15, "multi": 15},
 ]
 
 HAND = [
@@ -370,6 +392,9 @@ HAND = [
     "s = source_iter(0..5) -> map(|x| { let _ = #h; x }) -> h; h = singleton();",
     "h = source_iter(0..1) -> optional(); source_iter(0..5) -> map(|x| { let _ = #{1} mut h; x }) -> null(); source_iter(0..2) -> for_each(|x| { let _ = #{0} h; });",
     "source_iter(0..5) -> handoff() -> handoff() -> null();",
+    # two referenced singletons, one later-group reader written before the two earlier-group writers
+    "s1 = source_iter(0..1) -> singleton(); s2 = source_iter(0..1) -> singleton(); source_iter(0..3) -> map(|x| { let _ = #{1} s1; let _ = #{1} s2; x }) -> null(); source_iter(0..4) -> for_each(|x| { let _ = #{0} s1; }); source_iter(0..5) -> for_each(|x| { let _ = #{0} s2; });",
+    "s1 = source_iter(0..1) -> optional(); s2 = source_iter(0..1) -> singleton(); s3 = source_iter(0..1) -> handoff(); r = source_iter(0..3) -> inspect(|x| { let _ = #{2} s1; let _ = #{1} s2; let _ = #{1} s3; }) -> null(); source_iter(0..4) -> for_each(|x| { let _ = #{0} mut s3; }); source_iter(0..5) -> for_each(|x| { let _ = #{0} s2; }); source_iter(0..6) -> for_each(|x| { let _ = #{1} s1; let _ = #{0} s2; });",
     # access order between two shared readers against a same-tick pipe path (cycle) / without one (order only)
     "h = source_iter(0..1) -> singleton(); source_iter(0..5) -> map(|x| { let _ = #{1} h; x }) -> map(|x| { let _ = #{0} h; x }) -> null();",
     "h = source_iter(0..1) -> singleton(); source_iter(0..5) -> for_each(|x| { let _ = #{1} h; }); source_iter(0..6) -> for_each(|x| { let _ = #{0} h; });",
@@ -532,32 +557,62 @@ _ITER = r"(?:\.iter\(\)|\.iter_mut\(\)|\.into_iter\(\)|\.keys\(\)|\.values\(\)|\
 
 def scan_hash_iteration():
     """every place in dfir_lang's graph code where a std HashMap/HashSet is *iterated* (as opposed
-    to keyed access).  Heuristic but conservative: all identifiers/fields declared with a Hash*
-    type in a file, then every line of that file (outside #[cfg(test)] modules) that iterates one."""
-    sites = []
+    to keyed access).  Heuristic but conservative.  Pass 1 (all files): type aliases whose right-hand
+    side mentions HashMap/HashSet (transitively), and functions whose return type is such a type.
+    Pass 2 (per file, outside #[cfg(test)] modules): identifiers/fields declared with a hash type (or
+    alias) or bound to the result of such a function; every line that iterates one of them."""
+    files = []
     for pat in SCAN_GLOBS:
         for path in sorted(glob.glob(os.path.join(REPO, pat))):
             src = open(path, errors="replace").read()
             cut = src.find("#[cfg(test)]")
-            body = src if cut < 0 else src[:cut]
-            if "HashMap" not in body and "HashSet" not in body:
-                continue
-            names = set()
-            for m in re.finditer(r"\b(?:let\s+(?:mut\s+)?)?(\w+)\s*(?::\s*[^=;\n]*?\bHash(?:Map|Set)\b|=\s*(?:std::collections::)?Hash(?:Map|Set)\b)", body):
+            files.append((path, src if cut < 0 else src[:cut]))
+    hash_types = {"HashMap", "HashSet"}
+    changed = True
+    while changed:
+        changed = False
+        for _, body in files:
+            for m in re.finditer(r"\btype\s+(\w+)\s*(?:<[^>]*>)?\s*=\s*([^;]+);", body):
+                if m.group(1) not in hash_types and re.search(r"\b(%s)\b" % "|".join(sorted(hash_types)), m.group(2)):
+                    hash_types.add(m.group(1))
+                    changed = True
+    tyre = r"\b(?:%s)\b" % "|".join(sorted(hash_types))
+    hash_fns = set()
+    for _, body in files:
+        for m in re.finditer(r"\bfn\s+(\w+)\s*(?:<[^>]*>)?\s*\([^)]*\)\s*->\s*([^{;]+)", body):
+            if re.search(tyre, m.group(2)):
+                hash_fns.add(m.group(1))
+    sites = []
+    for path, body in files:
+        names = set()
+        for m in re.finditer(r"\b(?:let\s+(?:mut\s+)?)?(\w+)\s*(?::\s*[^=;\n]*?%s|=\s*(?:std::collections::)?%s)" % (tyre, tyre), body):
+            names.add(m.group(1))
+        for m in re.finditer(r"\b(\w+)\s*:\s*&?(?:mut\s+)?[\w:<>, ']*%s" % tyre, body):
+            names.add(m.group(1))
+        for fn in hash_fns:
+            for m in re.finditer(r"\blet\s+(?:mut\s+)?(\w+)\s*(?::[^=;]*)?=\s*[^;]*\b%s\s*\(" % re.escape(fn), body):
                 names.add(m.group(1))
-            for m in re.finditer(r"\b(\w+)\s*:\s*&?(?:mut\s+)?[\w:<>, ]*\bHash(?:Map|Set)\b", body):
-                names.add(m.group(1))
-            names -= {"collections", "std", "use"}
-            rel = os.path.relpath(path, REPO)
-            for ln, line in enumerate(body.split("\n"), 1):
-                code = line.split("//")[0]
-                for nm in sorted(names):
-                    if not re.search(r"\b%s\b" % re.escape(nm), code):
-                        continue
-                    it = re.search(r"\b%s\b[^;]*?%s" % (re.escape(nm), _ITER), code) or \
-                        re.search(r"\bfor\b.*\bin\b[^{]*\b%s\b" % re.escape(nm), code)
-                    if it:
-                        sites.append({"file": rel, "name": nm, "text": " ".join(code.split())})
+        names -= {"collections", "std", "use", "type", "Self", "self"} | hash_types
+        if not names and not hash_fns:
+            continue
+        rel = os.path.relpath(path, REPO)
+        for ln, line in enumerate(body.split("\n"), 1):
+            code = line.split("//")[0]
+            hit = False
+            for nm in sorted(names):
+                if not re.search(r"\b%s\b" % re.escape(nm), code):
+                    continue
+                it = re.search(r"\b%s\b[^;]*?%s" % (re.escape(nm), _ITER), code) or \
+                    re.search(r"\bfor\b.*\bin\b[^{]*\b%s\b" % re.escape(nm), code)
+                if it:
+                    sites.append({"file": rel, "name": nm, "text": " ".join(code.split())})
+                    hit = True
+            if not hit:
+                # direct iteration over the result of a hash-returning function
+                for fn in sorted(hash_fns):
+                    if re.search(r"\bfor\b.*\bin\b[^{]*\b%s\s*\(" % re.escape(fn), code) or \
+                            re.search(r"\b%s\s*\([^)]*\)\s*%s" % (re.escape(fn), _ITER), code):
+                        sites.append({"file": rel, "name": fn + "()", "text": " ".join(code.split())})
     return sites
 
 
